@@ -26,7 +26,9 @@ RULE = (
     "dtypes, pixels and preferred_chunksizes from the CURRENT rpc; (ii) decoy caches (well-formed "
     "index files with different shape/attrs) in both locations never influence use_cache=False; "
     "(iii) with a usable cache the vtrace log of open_alos2 has no read touching bytes >= 720 of "
-    "any IMG file; (iv) with no cache present use_cache=True equals the uncached tree. "
+    "any IMG file; (iv) with no cache present use_cache=True equals the uncached tree; (v) with a "
+    "stale (decoy) index in the user cache dir, open(use_cache=False, create_cache=True) produces "
+    "the cache again and the following use_cache=True open equals the uncached tree. "
     "Non-trivial: rpc_write != rpc_read or location=both or non-local filesystem."
 )
 ASSUMPTIONS = [
@@ -258,6 +260,23 @@ def run_case(case):
                     out.append(harness.disc("exception", "open_alos2(use_cache=False) with decoys", "a tree", harness.exc_text(err)))
                 else:
                     out.extend(harness.diff_flat(ref_flat, harness.flatten(t), kind="decoy-consulted"))
+                # (v) a stale (well-formed but wrong) index in the user cache dir is replaced when the
+                # cache is produced again: open(use_cache=False, create_cache=True) "produces a cache
+                # for the image", after which the cached open must equal the uncached one
+                for image in images:
+                    remove_adjacent(prod, image)
+                t, err = harness.guard(harness.open_tree, url, use_cache=False, create_cache=True, records_per_chunk=case["rpc_write"])
+                if err is not None:
+                    out.append(harness.disc("exception", "open_alos2(use_cache=False, create_cache=True) over a stale index", "a tree", harness.exc_text(err)))
+                else:
+                    out.extend(harness.diff_flat(
+                        ref_flat, harness.flatten(t), kind="decoy-consulted",
+                        ignore_encoding=is_image_data if case["rpc_write"] != case["rpc_read"] else (lambda key: False)))
+                    t, err = harness.guard(harness.open_tree, url, use_cache=True, records_per_chunk=case["rpc_read"])
+                    if err is not None:
+                        out.append(harness.disc("exception", "open_alos2(use_cache=True) after re-creating the cache", "a tree", harness.exc_text(err)))
+                    else:
+                        out.extend(harness.diff_flat(ref_flat, harness.flatten(t), kind="stale-cache-kept"))
         finally:
             cleanup(url, prod, images)
     for d in out:
